@@ -29,5 +29,5 @@ d=json.load(open('$r')); f=d.get('failure') or {}; print(f.get('signature') or d
     echo "$c $prop caught($n) $sigs"
   else echo "$c $prop MISSED"; fi
   git -C /repo worktree remove --force $wt
-  rm -rf /verif/.cache/alt-*
+  rm -rf /verif/.cache/alt-$(printf %s "$wt" | sha1sum | cut -c1-10)
 done < /tmp/revmap.txt
